@@ -18,3 +18,23 @@ fn session_opened_before_first_commit_does_not_see_later_commits() {
     std::mem::forget(s1);
     assert_eq!(seen, 0, "a snapshot taken before the INSERT committed sees the inserted row");
 }
+
+#[test]
+fn key_of_a_rolled_back_insert_is_reusable_by_the_very_next_transaction() {
+    // the aborted set of a snapshot must also hold aborted ids ABOVE the last committed id: index maintenance uses it to
+    // recognise the entry left behind by the rolled-back INSERT
+    let dir = tempfile::TempDir::new().unwrap();
+    let db = Database::create(dir.path().join("t.db"), DBConfig::default()).unwrap();
+    db.execute("CREATE TABLE u (id BIGINT, code TEXT, UNIQUE(code))").unwrap();
+    db.execute("INSERT INTO u VALUES (1, 'A')").unwrap();
+    {
+        let mut s = db.session().unwrap();
+        s.execute("INSERT INTO u VALUES (2, 'K')").unwrap();
+        s.abort_transaction().unwrap();
+    }
+    // no other transaction in between
+    db.execute("INSERT INTO u VALUES (3, 'K')").unwrap();
+    let n = db.execute("SELECT id FROM u WHERE code = 'K'").unwrap().into_rows().unwrap().len();
+    assert_eq!(n, 1, "the row that re-used the key of a rolled-back INSERT cannot be found by its key");
+    assert!(db.execute("INSERT INTO u VALUES (4, 'K')").is_err(), "a duplicate of the re-used key is accepted");
+}
